@@ -46,6 +46,9 @@ def _mk(kind, bs):
     bsz = torch.Size(bs)
     if kind == "rbf":
         return K.RBFKernel(batch_shape=bsz)
+    if kind == "scale_outer_unbatched":
+        # the outer kernel has no batch shape of its own; the batch lives in the base kernel only
+        return K.ScaleKernel(K.RBFKernel(batch_shape=bsz))
     if kind == "scale_rbf":
         return K.ScaleKernel(K.RBFKernel(ard_num_dims=2, batch_shape=bsz), batch_shape=bsz)
     if kind == "rq":
@@ -124,7 +127,7 @@ def kernel_index(S, kind, B, diag):
             with torch.no_grad():
                 src = dict(k.named_parameters())
                 for nme, p in rep.named_parameters():
-                    p.copy_(src[nme][b])
+                    p.copy_(src[nme][b] if src[nme].dim() > p.dim() else src[nme])
             reps.append(as_sym_arr(SH.get(dense(rep(x1[b], x2[b])))))
         lazy = k(x1, x2)
         for b in reversed(range(B)):
@@ -141,7 +144,7 @@ def kernel_index(S, kind, B, diag):
                 rep = _mk(kind, ())
                 with torch.no_grad():
                     for nme, p in rep.named_parameters():
-                        p.copy_(src[nme][b])
+                        p.copy_(src[nme][b] if src[nme].dim() > p.dim() else src[nme])
                 want = as_sym_arr(SH.get(dense(rep(a1[b] if a1.dim() == 3 else a1, a2))))
                 got = S.must_not_raise("lazy K[%d] (%s) of a %s kernel" % (b, nm, kind), lambda: dense(lz[b]))
                 if S.check_concrete(tuple(got.shape) == want.shape, "lazy K[%d] shape (%s)" % (b, nm), "%s vs %s" % (tuple(got.shape), want.shape)):
@@ -153,7 +156,7 @@ def kernel_index(S, kind, B, diag):
             rep = _mk(kind, ())
             with torch.no_grad():
                 for nme, p in rep.named_parameters():
-                    p.copy_(src[nme][j])
+                    p.copy_(src[nme][j] if src[nme].dim() > p.dim() else src[nme])
             want = as_sym_arr(SH.get(dense(rep(e1[i, j], e2[i, j]))))
             got = S.must_not_raise("lazy K[%d, %d] (data with an extra leading batch dimension) of a %s kernel" % (i, j, kind), lambda: dense(lz2[i, j]))
             if S.check_concrete(tuple(got.shape) == want.shape, "lazy K[%d, %d] shape" % (i, j), "%s vs %s" % (tuple(got.shape), want.shape)):
@@ -164,7 +167,7 @@ def kernel_index(S, kind, B, diag):
                 rep = _mk(kind, ())
                 with torch.no_grad():
                     for nme, p in rep.named_parameters():
-                        p.copy_(src[nme][b])
+                        p.copy_(src[nme][b] if src[nme].dim() > p.dim() else src[nme])
                 S.prove_eq(dg[b], as_sym_arr(SH.get(rep(x1[b], x1[b], diag=True))), "diag element %d = replica diag" % b)
 
 
@@ -474,7 +477,7 @@ def scenarios(tier, seed):
             add("mean_noise", pbs=list(p), dbs=list(d))
         add("exact_gp", n=2, m=1, shared_x=True)
         add("exact_gp", n=2, m=1, shared_x=False)
-        for kind in ("rbf+linear", "rbf*linear", "scale(rbf+rq)", "scale_rbf", "multitask", "rbf"):
+        for kind in ("rbf+linear", "rbf*linear", "scale(rbf+rq)", "scale_rbf", "multitask", "rbf", "scale_outer_unbatched"):
             add("kernel_index", kind=kind, B=2, diag=True)
         add("inducing_index", zbatch=False, mode="eval")
         add("inducing_index", zbatch=True, mode="train")
@@ -488,7 +491,7 @@ def scenarios(tier, seed):
             for (p, d) in pairs:
                 add("kernel", kind=kind, pbs=list(p), dbs1=list(d), dbs2=list(d))
             add("kernel", kind=kind, pbs=[2], dbs1=[2, 1], dbs2=[1, 2] if False else [2])
-        for kind in ("rbf", "rq", "linear", "rbf+linear", "rbf*linear", "scale(rbf+rq)", "scale_rbf", "multitask", "constant", "periodic"):
+        for kind in ("rbf", "rq", "linear", "rbf+linear", "rbf*linear", "scale(rbf+rq)", "scale_rbf", "multitask", "constant", "periodic", "scale_outer_unbatched"):
             for B in (2, 3):
                 add("kernel_index", kind=kind, B=B, diag=True)
         for kind in ("multitask", "periodic", "matern15", "poly3", "cosine", "constant", "rbf_grad", "matern52_grad", "poly_grad", "rbf_gradgrad"):
